@@ -41,7 +41,7 @@ func c01Seq(tier string) []SeqJob {
 		for _, k := range keys {
 			alpha = append(alpha, Op{K: "set", Key: k, Cost: 1}, Op{K: "get", Key: k}, Op{K: "del", Key: k}, Op{K: "setttl", Key: k, Cost: 1, TTL: 1000})
 		}
-		alpha = append(alpha, Op{K: "advance", N: 2000}, Op{K: "sweep"})
+		alpha = append(alpha, Op{K: "advance", N: 2000}, Op{K: "sweep"}, Op{K: "drain"})
 		spec := &SeqSpec{Cfg: Cfg{NumCounters: 16, MaxCost: 3, BufferItems: 2, SetBuf: 3, KeyHash: hash, TTLTick: 2, BucketSecs: 1}, MaxDepth: depth,
 			Alphabet: func(r *SeqRun) []Op { return alpha },
 			Oracle: func(r *SeqRun) []Viol {
